@@ -19,7 +19,7 @@ PROPERTIES = {
     "C16": {
         "bounds": "fs kinds: all 41 kinds of the notify enumeration via a (kind, documented name) table, format half and parse half; other tags: one tag per query; pid/u32, exit codes i64/i32, custom signal i32 over their full ranges; paths: two fixed short PathBufs; wire totality: every kind x every present/absent combination of the 10 optional fields; unwind 8/24 (memcmp of <= 23-byte names)",
         "outside": "serde_json text layer (escaping, number printing, field spelling in the text), metadata maps, non-UTF-8 paths, events with > 1 tag",
-        "trusted": ["Kani 0.68 / CBMC 6.11 / CaDiCaL", "hook watchexec_events::verif (cfg(kani)) exposing SerdeTag fields"],
+        "trusted": ["Kani 0.68 / CBMC 6.11 / CaDiCaL", "hook watchexec_events::verif (cfg(kani)) exposing SerdeTag fields", "hook watchexec_signals::verif (cfg(kani)) exposing SerdeSignal/NamedSignal"],
         "assumptions": ["serde derive maps struct fields 1:1 to JSON object members (not encoded)"],
         "harnesses": [
             {"group": "events", "name": "c16_tag_roundtrip", "covers": ["path tag", "completion tag", "exit error tag", "custom signal tag"],
@@ -39,6 +39,8 @@ PROPERTIES = {
             {"group": "events", "name": "c16_fs_format_3", "covers": ["last kind of the range"], "mem_gb": 12, "bounds": "kinds 21..28 of the table: real format!(\"{kind:?}\") (core::fmt not stubbed) must equal the documented name; unwind 34", "timeout": {"quick": 1500, "thorough": 3000}},
             {"group": "events", "name": "c16_fs_format_4", "tiers": ("thorough",), "covers": ["last kind of the range"], "mem_gb": 12, "bounds": "kinds 28..35 of the table: real format!(\"{kind:?}\") (core::fmt not stubbed) must equal the documented name; unwind 34", "timeout": {"quick": 1500, "thorough": 3000}},
             {"group": "events", "name": "c16_fs_format_5", "tiers": ("thorough",), "covers": ["last kind of the range"], "mem_gb": 12, "bounds": "kinds 35..41 of the table: real format!(\"{kind:?}\") (core::fmt not stubbed) must equal the documented name; unwind 34", "timeout": {"quick": 1500, "thorough": 3000}},
+            {"group": "events", "name": "c16_signal_wire_roundtrip", "covers": ["numeric wire form", "named wire form"], "bounds": "every first-class signal and Custom(n) for all i32 n"},
+            {"group": "events", "name": "c16_signal_wire_parse", "covers": ["custom"], "bounds": "every wire signal value (7 names, all i32 numbers)"},
             {"group": "events", "name": "c16_fs_simple_only", "covers": ["remove"], "bounds": "5 coarse kinds"},
         ],
     },
@@ -65,14 +67,14 @@ PROPERTIES = {
              "bounds": "3 waiters, 3 poll slots each taken by any waiter or skipped; first slot = waiter 0 by symmetry (16 schedules, path-split)"},
             {"group": "supervisor", "name": "c07_flag_all_waiters_woken_full", "tiers": ("thorough",), "covers": ["three waiters pending"],
              "bounds": "as above without the symmetry argument (64 schedules)", "timeout": {"thorough": 3000}},
-            {"group": "supervisor", "name": "c07_ticket_clone_first_control_done_a", "bounds": "3 waiters (2 clones + 1 other ticket of the job), 3 poll slots; first = a clone of the ticket; second slot: waiter 0 or 1; the control's own flag is raised (8 schedules, path-split)"},
-            {"group": "supervisor", "name": "c07_ticket_clone_first_control_done_b", "bounds": "3 waiters (2 clones + 1 other ticket of the job), 3 poll slots; first = a clone of the ticket; second slot: waiter 2 or skipped; the control's own flag is raised (8 schedules, path-split)"},
-            {"group": "supervisor", "name": "c07_ticket_clone_first_job_gone_a", "bounds": "3 waiters (2 clones + 1 other ticket of the job), 3 poll slots; first = a clone of the ticket; second slot: waiter 0 or 1; the job-gone flag is raised (8 schedules, path-split)"},
-            {"group": "supervisor", "name": "c07_ticket_clone_first_job_gone_b", "bounds": "3 waiters (2 clones + 1 other ticket of the job), 3 poll slots; first = a clone of the ticket; second slot: waiter 2 or skipped; the job-gone flag is raised (8 schedules, path-split)"},
-            {"group": "supervisor", "name": "c07_ticket_other_first_control_done_a", "bounds": "3 waiters (2 clones + 1 other ticket of the job), 3 poll slots; first = the other ticket of the job; second slot: waiter 0 or 1; the control's own flag is raised (8 schedules, path-split)"},
-            {"group": "supervisor", "name": "c07_ticket_other_first_control_done_b", "bounds": "3 waiters (2 clones + 1 other ticket of the job), 3 poll slots; first = the other ticket of the job; second slot: waiter 2 or skipped; the control's own flag is raised (8 schedules, path-split)"},
-            {"group": "supervisor", "name": "c07_ticket_other_first_job_gone_a", "bounds": "3 waiters (2 clones + 1 other ticket of the job), 3 poll slots; first = the other ticket of the job; second slot: waiter 0 or 1; the job-gone flag is raised (8 schedules, path-split)"},
-            {"group": "supervisor", "name": "c07_ticket_other_first_job_gone_b", "bounds": "3 waiters (2 clones + 1 other ticket of the job), 3 poll slots; first = the other ticket of the job; second slot: waiter 2 or skipped; the job-gone flag is raised (8 schedules, path-split)"},
+            {"group": "supervisor", "name": "c07_ticket_clone_first_control_done_a", "covers": ["schedule ran to its end"], "bounds": "3 waiters (2 clones + 1 other ticket of the job), 3 poll slots; first = a clone of the ticket; second slot: waiter 0 or 1; the control's own flag is raised (8 schedules, path-split)"},
+            {"group": "supervisor", "name": "c07_ticket_clone_first_control_done_b", "covers": ["schedule ran to its end"], "bounds": "3 waiters (2 clones + 1 other ticket of the job), 3 poll slots; first = a clone of the ticket; second slot: waiter 2 or skipped; the control's own flag is raised (8 schedules, path-split)"},
+            {"group": "supervisor", "name": "c07_ticket_clone_first_job_gone_a", "covers": ["schedule ran to its end"], "bounds": "3 waiters (2 clones + 1 other ticket of the job), 3 poll slots; first = a clone of the ticket; second slot: waiter 0 or 1; the job-gone flag is raised (8 schedules, path-split)"},
+            {"group": "supervisor", "name": "c07_ticket_clone_first_job_gone_b", "covers": ["schedule ran to its end"], "bounds": "3 waiters (2 clones + 1 other ticket of the job), 3 poll slots; first = a clone of the ticket; second slot: waiter 2 or skipped; the job-gone flag is raised (8 schedules, path-split)"},
+            {"group": "supervisor", "name": "c07_ticket_other_first_control_done_a", "covers": ["schedule ran to its end"], "bounds": "3 waiters (2 clones + 1 other ticket of the job), 3 poll slots; first = the other ticket of the job; second slot: waiter 0 or 1; the control's own flag is raised (8 schedules, path-split)"},
+            {"group": "supervisor", "name": "c07_ticket_other_first_control_done_b", "covers": ["schedule ran to its end"], "bounds": "3 waiters (2 clones + 1 other ticket of the job), 3 poll slots; first = the other ticket of the job; second slot: waiter 2 or skipped; the control's own flag is raised (8 schedules, path-split)"},
+            {"group": "supervisor", "name": "c07_ticket_other_first_job_gone_a", "covers": ["schedule ran to its end"], "bounds": "3 waiters (2 clones + 1 other ticket of the job), 3 poll slots; first = the other ticket of the job; second slot: waiter 0 or 1; the job-gone flag is raised (8 schedules, path-split)"},
+            {"group": "supervisor", "name": "c07_ticket_other_first_job_gone_b", "covers": ["schedule ran to its end"], "bounds": "3 waiters (2 clones + 1 other ticket of the job), 3 poll slots; first = the other ticket of the job; second slot: waiter 2 or skipped; the job-gone flag is raised (8 schedules, path-split)"},
         ],
     },
     "C18": {
